@@ -2,7 +2,7 @@
 # usage: try_mutant.sh <patch.diff> <Cxx> [tier]   -- apply to /repo, run the check, always undo
 p="$1"; pid="$2"; tier="${3:-quick}"
 cd /repo && git apply "$p" || { echo "PATCH DOES NOT APPLY"; exit 3; }
-cd /verif && ./check "$pid" --tier "$tier" 2>&1 | grep -v "WARNING conda" | grep -E "VIOLATION|KNOWN-FINDING|MACHINERY|clause=|^C[0-9]+ " | head -12
+out=$(mktemp -d /tmp/try_out_XXXX); cd /verif && VERIF_OUT=$out ./check "$pid" --tier "$tier" 2>&1 | grep -v "WARNING conda" | grep -E "VIOLATION|KNOWN-FINDING|MACHINERY|clause=|^C[0-9]+ " | head -12
 rc=${PIPESTATUS[0]}
-git -C /repo checkout -- . ; git -C /repo status --short | head -3
+git -C /repo checkout -- . ; rm -rf "$out"; git -C /repo status --short | head -3
 echo "exit=$rc"
